@@ -143,7 +143,7 @@ def run_stage(prop, stage, tier, rng, driver, res, known, extra_lines=None):
                 if f.endswith(".scn") and (f.startswith(stage["name"] + ".") or f.startswith("all.")):
                     lines += [l for l in open(os.path.join(cdir, f)).read().split("\n") if l and not l.startswith("#")]
         lines += list(stage["gen"](ctx))
-    nshards = max(1, min(16, len(lines) // 2000 + 1)) if stage.get("parallel", True) else 1
+    nshards = max(1, min(16, len(lines) // stage.get("shard", 2000) + 1)) if stage.get("parallel", True) else 1
     shards = [[] for _ in range(nshards)]
     for i, l in enumerate(lines):
         shards[i % nshards].append(l)
